@@ -1,4 +1,5 @@
 import RxProofs.Lemmas.WinRel3
+import RxProofs.Lemmas.WinSrcKept2
 import RxProofs.Lemmas.C02WinGrp
 import RxProofs.Lemmas.C02WinFin
 /-!
@@ -153,6 +154,170 @@ theorem dispose_releases_all_time_or_count (span count t0 : Nat) (evs : List (Na
     simp only [s, Mach.fold, List.foldl_append, List.foldl_cons, List.foldl_nil, Toc.mach, Toc.step, Toc.sync_b]
     exact Base.os_disposeEv _ _
   exact ⟨ho, fun ha => terminal_releases_all_time_or_count span count t0 _ ho ha⟩
+
+
+/-! ### the release rule, both directions (window machines)
+
+`release_iff_*`: in every state of every run, the underlying disposable (source / boundary / closing / opening
+subscriptions, timers) has been disposed **iff** the outer observer is stopped (terminal or dispose) and no window
+subscriber is attached.  `source_subscribed_iff_*`: along every trace that contains no terminal of the windowed source,
+the source is still subscribed **iff** it is not the case that the outer observer is stopped and the last window
+subscriber is gone — not earlier, not later.  Together with `window_partition_*` (routing holds for every trace, with
+`dispose` anywhere, as long as the source is live) and `C18.buffer_eq_window_*` (an attached subscriber has received
+exactly what was pushed) this gives: a window subscriber that stays after the outer `dispose` keeps receiving its
+window's elements and its terminal. -/
+
+/-- no event of the trace is a terminal of the windowed source. -/
+def NoSrcTerminal (evs : List (Nat × Ev α)) : Prop := ∀ te ∈ evs, te.2.notSrcTerminal = true
+
+theorem fold_kept {σ : Type} (m : Mach σ α) (base : σ → Base α)
+    (hstep : ∀ s t e, e.notSrcTerminal = true → SrcKept (base s) → SrcKept (base (m.step s t e)))
+    (evs : List (Nat × Ev α)) (hns : NoSrcTerminal evs) (s : σ) (h : SrcKept (base s)) : SrcKept (base (m.fold s evs)) := by
+  induction evs generalizing s with
+  | nil => exact h
+  | cons te es ih =>
+    exact ih (fun x hx => hns x (List.mem_cons_of_mem _ hx)) _ (hstep s te.1 te.2 (hns te List.mem_cons_self) h)
+
+theorem release_iff_of_rel {b : Base α} (h : Rel b) :
+    b.rcDisposed = true ↔ (b.outerStopped = true ∧ b.attachedCount = 0) :=
+  ⟨fun hd => ⟨by rw [← h.prim_iff]; exact h.disp_prim hd, h.hold hd⟩, fun ⟨ho, ha⟩ => (released h ho ha).1⟩
+
+theorem subscribed_iff_of {b : Base α} (h : Rel b) (hk : SrcKept b) :
+    0 ∈ b.live ↔ ¬ (b.outerStopped = true ∧ b.attachedCount = 0) := by
+  constructor
+  · intro h0 ⟨ho, ha⟩
+    have := (released h ho ha).2; rw [this] at h0; cases h0
+  · intro hn
+    apply hk
+    cases hd : b.rcDisposed with
+    | false => rfl
+    | true => exact absurd ((release_iff_of_rel h).mp hd) hn
+
+theorem release_iff_count (count skip t0 : Nat) (evs : List (Nat × Ev α)) :
+    let b := (Cnt.run count skip (Cnt.init t0) evs).b
+    b.rcDisposed = true ↔ (b.outerStopped = true ∧ b.attachedCount = 0) := by
+  intro b
+  have h : Rel b := by
+    show Rel (Cnt.run count skip (Cnt.init t0) evs).b
+    rw [Cnt.run_eq_fold]; exact Rel_fold (Cnt.mach count skip) (·.b) (fun s t e h => Cnt.Rel_step count skip s t e h) evs _ (Cnt.Rel_init t0)
+  exact release_iff_of_rel h
+
+theorem source_subscribed_iff_count (count skip t0 : Nat) (evs : List (Nat × Ev α)) (hns : NoSrcTerminal evs) :
+    let b := (Cnt.run count skip (Cnt.init t0) evs).b
+    0 ∈ b.live ↔ ¬ (b.outerStopped = true ∧ b.attachedCount = 0) := by
+  intro b
+  have h : Rel b := by
+    show Rel (Cnt.run count skip (Cnt.init t0) evs).b
+    rw [Cnt.run_eq_fold]; exact Rel_fold (Cnt.mach count skip) (·.b) (fun s t e h => Cnt.Rel_step count skip s t e h) evs _ (Cnt.Rel_init t0)
+  have hk : SrcKept b := by
+    show SrcKept (Cnt.run count skip (Cnt.init t0) evs).b
+    rw [Cnt.run_eq_fold]; exact fold_kept (Cnt.mach count skip) (·.b) (fun s t e hns h => Cnt.SK_step count skip s t e hns h) evs hns _ (Cnt.SK_init t0)
+  exact subscribed_iff_of h hk
+
+theorem release_iff_boundaries (t0 : Nat) (bsync : Option (Notif Unit)) (evs : List (Nat × Ev α)) :
+    let b := (Bnd.run (Bnd.init t0 bsync) evs).b
+    b.rcDisposed = true ↔ (b.outerStopped = true ∧ b.attachedCount = 0) := by
+  intro b
+  have h : Rel b := by
+    show Rel (Bnd.run (Bnd.init t0 bsync) evs).b
+    rw [Bnd.run_eq_fold]; exact Rel_fold Bnd.mach (·.b) (fun s t e h => Bnd.Rel_step s t e h) evs _ (Bnd.Rel_init t0 bsync)
+  exact release_iff_of_rel h
+
+theorem source_subscribed_iff_boundaries (t0 : Nat) (bsync : Option (Notif Unit)) (evs : List (Nat × Ev α)) (hns : NoSrcTerminal evs) :
+    let b := (Bnd.run (Bnd.init t0 bsync) evs).b
+    0 ∈ b.live ↔ ¬ (b.outerStopped = true ∧ b.attachedCount = 0) := by
+  intro b
+  have h : Rel b := by
+    show Rel (Bnd.run (Bnd.init t0 bsync) evs).b
+    rw [Bnd.run_eq_fold]; exact Rel_fold Bnd.mach (·.b) (fun s t e h => Bnd.Rel_step s t e h) evs _ (Bnd.Rel_init t0 bsync)
+  have hk : SrcKept b := by
+    show SrcKept (Bnd.run (Bnd.init t0 bsync) evs).b
+    rw [Bnd.run_eq_fold]; exact fold_kept Bnd.mach (·.b) (fun s t e hns h => Bnd.SK_step s t e hns h) evs hns _ (Bnd.SK_init t0 bsync)
+  exact subscribed_iff_of h hk
+
+theorem release_iff_when (raiseAt : Option Nat) (pool t0 : Nat) (sync : List (Option (Option Err))) (evs : List (Nat × Ev α)) :
+    let b := (Whn.run raiseAt pool (Whn.init raiseAt pool t0 sync) evs).b
+    b.rcDisposed = true ↔ (b.outerStopped = true ∧ b.attachedCount = 0) := by
+  intro b
+  have h : Rel b := by
+    show Rel (Whn.run raiseAt pool (Whn.init raiseAt pool t0 sync) evs).b
+    rw [Whn.run_eq_fold]; exact Rel_fold (Whn.mach raiseAt pool) (·.b) (fun s t e h => Whn.Rel_step raiseAt pool s t e h) evs _ (Whn.Rel_init raiseAt pool t0 sync)
+  exact release_iff_of_rel h
+
+theorem source_subscribed_iff_when (raiseAt : Option Nat) (pool t0 : Nat) (sync : List (Option (Option Err))) (evs : List (Nat × Ev α)) (hns : NoSrcTerminal evs) :
+    let b := (Whn.run raiseAt pool (Whn.init raiseAt pool t0 sync) evs).b
+    0 ∈ b.live ↔ ¬ (b.outerStopped = true ∧ b.attachedCount = 0) := by
+  intro b
+  have h : Rel b := by
+    show Rel (Whn.run raiseAt pool (Whn.init raiseAt pool t0 sync) evs).b
+    rw [Whn.run_eq_fold]; exact Rel_fold (Whn.mach raiseAt pool) (·.b) (fun s t e h => Whn.Rel_step raiseAt pool s t e h) evs _ (Whn.Rel_init raiseAt pool t0 sync)
+  have hk : SrcKept b := by
+    show SrcKept (Whn.run raiseAt pool (Whn.init raiseAt pool t0 sync) evs).b
+    rw [Whn.run_eq_fold]; exact fold_kept (Whn.mach raiseAt pool) (·.b) (fun s t e hns h => Whn.SK_step raiseAt pool s t e hns h) evs hns _ (Whn.SK_init raiseAt pool t0 sync)
+  exact subscribed_iff_of h hk
+
+theorem release_iff_toggle (raiseAt : Option Nat) (pool t0 : Nat) (sync : List (Option (Option Err))) (evs : List (Nat × Ev α)) :
+    let b := (Tgl.run raiseAt pool (Tgl.init t0 sync) evs).b
+    b.rcDisposed = true ↔ (b.outerStopped = true ∧ b.attachedCount = 0) := by
+  intro b
+  have h : Rel b := by
+    show Rel (Tgl.run raiseAt pool (Tgl.init t0 sync) evs).b
+    rw [Tgl.run_eq_fold]; exact Rel_fold (Tgl.mach raiseAt pool) (·.b) (fun s t e h => Tgl.Rel_step raiseAt pool s t e h) evs _ (Tgl.Rel_init t0 sync)
+  exact release_iff_of_rel h
+
+theorem source_subscribed_iff_toggle (raiseAt : Option Nat) (pool t0 : Nat) (sync : List (Option (Option Err))) (evs : List (Nat × Ev α)) (hns : NoSrcTerminal evs) :
+    let b := (Tgl.run raiseAt pool (Tgl.init t0 sync) evs).b
+    0 ∈ b.live ↔ ¬ (b.outerStopped = true ∧ b.attachedCount = 0) := by
+  intro b
+  have h : Rel b := by
+    show Rel (Tgl.run raiseAt pool (Tgl.init t0 sync) evs).b
+    rw [Tgl.run_eq_fold]; exact Rel_fold (Tgl.mach raiseAt pool) (·.b) (fun s t e h => Tgl.Rel_step raiseAt pool s t e h) evs _ (Tgl.Rel_init t0 sync)
+  have hk : SrcKept b := by
+    show SrcKept (Tgl.run raiseAt pool (Tgl.init t0 sync) evs).b
+    rw [Tgl.run_eq_fold]; exact fold_kept (Tgl.mach raiseAt pool) (·.b) (fun s t e hns h => Tgl.SK_step raiseAt pool s t e hns h) evs hns _ (Tgl.SK_init t0 sync)
+  exact subscribed_iff_of h hk
+
+theorem release_iff_time (span shift t0 : Nat) (evs : List (Nat × Ev α)) :
+    let b := ((Tim.mach shift).fold (Tim.init span shift t0) evs).b
+    b.rcDisposed = true ↔ (b.outerStopped = true ∧ b.attachedCount = 0) := by
+  intro b
+  have h : Rel b := by
+    show Rel ((Tim.mach shift).fold (Tim.init span shift t0) evs).b
+    exact Rel_fold (Tim.mach shift) (·.b) (fun s t e h => Tim.Rel_step shift s t e h) evs _ (Tim.Rel_init span shift t0)
+  exact release_iff_of_rel h
+
+theorem source_subscribed_iff_time (span shift t0 : Nat) (evs : List (Nat × Ev α)) (hns : NoSrcTerminal evs) :
+    let b := ((Tim.mach shift).fold (Tim.init span shift t0) evs).b
+    0 ∈ b.live ↔ ¬ (b.outerStopped = true ∧ b.attachedCount = 0) := by
+  intro b
+  have h : Rel b := by
+    show Rel ((Tim.mach shift).fold (Tim.init span shift t0) evs).b
+    exact Rel_fold (Tim.mach shift) (·.b) (fun s t e h => Tim.Rel_step shift s t e h) evs _ (Tim.Rel_init span shift t0)
+  have hk : SrcKept b := by
+    show SrcKept ((Tim.mach shift).fold (Tim.init span shift t0) evs).b
+    exact fold_kept (Tim.mach shift) (·.b) (fun s t e hns h => Tim.SK_step shift s t e hns h) evs hns _ (Tim.SK_init span shift t0)
+  exact subscribed_iff_of h hk
+
+theorem release_iff_time_or_count (span count t0 : Nat) (evs : List (Nat × Ev α)) :
+    let b := ((Toc.mach span count).fold (Toc.init span t0) evs).b
+    b.rcDisposed = true ↔ (b.outerStopped = true ∧ b.attachedCount = 0) := by
+  intro b
+  have h : Rel b := by
+    show Rel ((Toc.mach span count).fold (Toc.init span t0) evs).b
+    exact Rel_fold (Toc.mach span count) (·.b) (fun s t e h => Toc.Rel_step span count s t e h) evs _ (Toc.Rel_init span t0)
+  exact release_iff_of_rel h
+
+theorem source_subscribed_iff_time_or_count (span count t0 : Nat) (evs : List (Nat × Ev α)) (hns : NoSrcTerminal evs) :
+    let b := ((Toc.mach span count).fold (Toc.init span t0) evs).b
+    0 ∈ b.live ↔ ¬ (b.outerStopped = true ∧ b.attachedCount = 0) := by
+  intro b
+  have h : Rel b := by
+    show Rel ((Toc.mach span count).fold (Toc.init span t0) evs).b
+    exact Rel_fold (Toc.mach span count) (·.b) (fun s t e h => Toc.Rel_step span count s t e h) evs _ (Toc.Rel_init span t0)
+  have hk : SrcKept b := by
+    show SrcKept ((Toc.mach span count).fold (Toc.init span t0) evs).b
+    exact fold_kept (Toc.mach span count) (·.b) (fun s t e hns h => Toc.SK_step span count s t e hns h) evs hns _ (Toc.SK_init span t0)
+  exact subscribed_iff_of h hk
 
 /-! non-vacuity: an outer dispose with an attached open window keeps the source; the window's end releases it -/
 example : (Cnt.run 2 2 (Cnt.init 200) [(210, .src 0 (.next (1 : Nat))), (220, .dispose false)]).b.live = [0] := by decide
